@@ -7,88 +7,181 @@ import (
 	"verif/harness/hx"
 )
 
-// brute-force distance from p to a surface given as patches [0,1]^2 -> R^3: grid, then shrinking-window refinement
-func patchDist(patch func(u, v float64) V3, p V3) float64 {
-	const n = 40
-	best, bu, bv := math.Inf(1), 0.0, 0.0
-	for i := 0; i <= n; i++ {
-		for j := 0; j <= n; j++ {
-			u, v := float64(i)/n, float64(j)/n
-			if d := patch(u, v).sub(p).norm(); d < best {
-				best, bu, bv = d, u, v
-			}
-		}
+// Exactness oracle: |f p| against the distance from p to the surface, computed by a RIGOROUS branch-and-bound
+// over a parametrisation of the surface.  It returns an enclosure [lo, hi] of the true distance:
+//
+//	hi  = distance to an actual surface point (the best sample): always an upper bound;
+//	lo  = sqrt of the smallest second-order lower bound of g(u,v) = |S(u,v) - p|^2 over the cells that are
+//	      still alive:  g >= g(c) - |g_u| hu - |g_v| hv - M/2 (hu^2 + hv^2)  on a cell with centre c and
+//	      half-sizes hu, hv, where M bounds the Hessian of g:  M = 2 (J2 + Dmax K),  J2 >= |S_u|^2 + |S_v|^2,
+//	      K >= the second derivatives of S, Dmax >= |S - p| on the cell.
+//
+// A cell whose lower bound exceeds the best sample cannot contain the nearest point and is dropped; the others are
+// split in four.  Near the minimiser the gradient vanishes, so O(1) cells survive per level and the enclosure
+// shrinks geometrically.  Whatever the budget, [lo, hi] is a valid enclosure: the oracle only flags when |f p| is
+// outside it (plus rounding slack) — an unconverged search widens the enclosure, it never produces an alarm.
+type patch struct {
+	s      func(u, v float64) V3 // surface point
+	su, sv func(u, v float64) V3 // partial derivatives
+	u0, u1 float64
+	v0, v1 float64
+	j2     float64 // >= |S_u|^2 + |S_v|^2 everywhere
+	k      float64 // >= operator norm of the second derivative of S everywhere (0 for planar patches)
+}
+
+type cell struct{ cu, cv, hu, hv float64 }
+
+// enclose returns (lo, hi) with lo <= dist(p, patch) <= hi.
+func (pt *patch) enclose(p V3, bestIn float64) (float64, float64) {
+	best2 := bestIn * bestIn // squared distance of the best surface sample so far (may be +Inf)
+	cells := []cell{{(pt.u0 + pt.u1) / 2, (pt.v0 + pt.v1) / 2, (pt.u1 - pt.u0) / 2, (pt.v1 - pt.v0) / 2}}
+	// start from a modest grid so that the first bounds are meaningful
+	for i := 0; i < 3; i++ {
+		cells = splitAll(cells)
 	}
-	w := 1.5 / n
-	for round := 0; round < 34; round++ {
-		cu, cv := bu, bv
-		for i := -3; i <= 3; i++ {
-			for j := -3; j <= 3; j++ {
-				u := math.Min(1, math.Max(0, cu+w*float64(i)/3))
-				v := math.Min(1, math.Max(0, cv+w*float64(j)/3))
-				if d := patch(u, v).sub(p).norm(); d < best {
-					best, bu, bv = d, u, v
+	minLB := 0.0
+	for level := 0; level < 60; level++ {
+		type lbc struct {
+			c  cell
+			lb float64
+		}
+		alive := make([]lbc, 0, len(cells))
+		for _, c := range cells {
+			d := pt.s(c.cu, c.cv).sub(p)
+			g := d.dot(d)
+			if g < best2 {
+				best2 = g
+			}
+			gu := 2 * d.dot(pt.su(c.cu, c.cv))
+			gv := 2 * d.dot(pt.sv(c.cu, c.cv))
+			dmax := math.Sqrt(g) + math.Sqrt(pt.j2)*(c.hu+c.hv)
+			m := 2 * (pt.j2 + dmax*pt.k)
+			lb := g - math.Abs(gu)*c.hu - math.Abs(gv)*c.hv - m/2*(c.hu*c.hu+c.hv*c.hv)
+			alive = append(alive, lbc{c, lb})
+		}
+		cells = cells[:0]
+		minLB = math.Inf(1)
+		for _, a := range alive {
+			if a.lb <= best2 {
+				cells = append(cells, a.c)
+				if a.lb < minLB {
+					minLB = a.lb
 				}
 			}
 		}
-		w *= 0.6
+		if len(cells) == 0 { // cannot happen (the cell of the best sample survives); be safe
+			minLB = best2
+			break
+		}
+		hi := math.Sqrt(best2)
+		lo := math.Sqrt(math.Max(minLB, 0))
+		if hi-lo < 1e-11*(1+hi) || len(cells) > 20000 {
+			break
+		}
+		cells = splitAll(cells)
 	}
-	return best
+	return math.Sqrt(math.Max(math.Min(minLB, best2), 0)), math.Sqrt(best2)
 }
 
-func surfacePatches(s Shape, p V3) []func(u, v float64) V3 {
+func splitAll(cells []cell) []cell {
+	out := make([]cell, 0, 4*len(cells))
+	for _, c := range cells {
+		hu, hv := c.hu/2, c.hv/2
+		out = append(out, cell{c.cu - hu, c.cv - hv, hu, hv}, cell{c.cu + hu, c.cv - hv, hu, hv},
+			cell{c.cu - hu, c.cv + hv, hu, hv}, cell{c.cu + hu, c.cv + hv, hu, hv})
+	}
+	return out
+}
+
+// part of a sphere of radius r around c with polar axis e (theta from e, in [t0,t1]), frame f1,f2
+func spherePatch(c, e, f1, f2 V3, r, t0, t1 float64) *patch {
+	dir := func(th, ph float64) V3 {
+		return e.mul(math.Cos(th)).add(f1.mul(math.Sin(th) * math.Cos(ph))).add(f2.mul(math.Sin(th) * math.Sin(ph)))
+	}
+	return &patch{
+		s: func(th, ph float64) V3 { return c.add(dir(th, ph).mul(r)) },
+		su: func(th, ph float64) V3 {
+			return e.mul(-math.Sin(th)).add(f1.mul(math.Cos(th) * math.Cos(ph))).add(f2.mul(math.Cos(th) * math.Sin(ph))).mul(r)
+		},
+		sv: func(th, ph float64) V3 {
+			return f1.mul(-math.Sin(th) * math.Sin(ph)).add(f2.mul(math.Sin(th) * math.Cos(ph))).mul(r)
+		},
+		u0: t0, u1: t1, v0: 0, v1: 2 * math.Pi,
+		j2: 2 * r * r, // |S_th| = r, |S_ph| = r sin th <= r
+		k:  3 * r,     // |S_thth| = r, |S_thph| <= r, |S_phph| <= r  (operator norm <= Frobenius-type bound 3r)
+	}
+}
+
+// planar rectangle o + u e1 + v e2, u in [-a,a], v in [-b,b] (e1, e2 orthonormal)
+func planePatch(o, e1, e2 V3, a, b float64) *patch {
+	return &patch{
+		s:  func(u, v float64) V3 { return o.add(e1.mul(u)).add(e2.mul(v)) },
+		su: func(u, v float64) V3 { return e1 },
+		sv: func(u, v float64) V3 { return e2 },
+		u0: -a, u1: a, v0: -b, v1: b, j2: 2, k: 0,
+	}
+}
+
+// lateral surface of a cylinder: a + t e + r (cos ph f1 + sin ph f2), t in [0,l]
+func cylinderPatch(a, e, f1, f2 V3, r, l float64) *patch {
+	return &patch{
+		s: func(t, ph float64) V3 {
+			return a.add(e.mul(t)).add(f1.mul(r * math.Cos(ph))).add(f2.mul(r * math.Sin(ph)))
+		},
+		su: func(t, ph float64) V3 { return e },
+		sv: func(t, ph float64) V3 { return f1.mul(-r * math.Sin(ph)).add(f2.mul(r * math.Cos(ph))) },
+		u0: 0, u1: l, v0: 0, v1: 2 * math.Pi, j2: 1 + r*r, k: r,
+	}
+}
+
+func unit(i int) V3 { var v V3; v[i] = 1; return v }
+
+// surfacePatches: the surface of the shape as a union of patches (nil: no brute-force reference).
+func surfacePatches(s Shape, p V3) []*patch {
 	switch s.T {
 	case "sphere":
-		return []func(u, v float64) V3{func(u, v float64) V3 {
-			th, ph := math.Pi*u, 2*math.Pi*v
-			return s.A.add(V3{math.Sin(th) * math.Cos(ph), math.Sin(th) * math.Sin(ph), math.Cos(th)}.mul(s.R[0]))
-		}}
+		return []*patch{spherePatch(s.A, unit(2), unit(0), unit(1), s.R[0], 0, math.Pi)}
 	case "box":
-		var out []func(u, v float64) V3
+		var out []*patch
 		for ax := 0; ax < 3; ax++ {
+			a1, a2 := (ax+1)%3, (ax+2)%3
 			for _, sg := range []float64{-1, 1} {
-				ax, sg := ax, sg
-				out = append(out, func(u, v float64) V3 {
-					q := s.A
-					a1, a2 := (ax+1)%3, (ax+2)%3
-					q[ax] += sg * s.B[ax] / 2
-					q[a1] += (u - 0.5) * s.B[a1]
-					q[a2] += (v - 0.5) * s.B[a2]
-					return q
-				})
+				o := s.A.add(unit(ax).mul(sg * s.B[ax] / 2))
+				out = append(out, planePatch(o, unit(a1), unit(a2), s.B[a1]/2, s.B[a2]/2))
 			}
 		}
 		return out
 	case "line":
 		d := s.B.sub(s.A)
 		l := d.norm()
+		if l == 0 {
+			return []*patch{spherePatch(s.A, unit(2), unit(0), unit(1), s.R[0], 0, math.Pi)}
+		}
 		e := d.mul(1 / l)
 		f1, f2 := frame(e)
 		r := s.R[0]
-		side := func(u, v float64) V3 {
-			ph := 2 * math.Pi * v
-			return s.A.add(d.mul(u)).add(f1.mul(r * math.Cos(ph))).add(f2.mul(r * math.Sin(ph)))
+		return []*patch{
+			cylinderPatch(s.A, e, f1, f2, r, l),
+			spherePatch(s.A, e.mul(-1), f1, f2, r, 0, math.Pi/2),
+			spherePatch(s.B, e, f1, f2, r, 0, math.Pi/2),
 		}
-		cap := func(c V3, dir V3) func(u, v float64) V3 {
-			return func(u, v float64) V3 {
-				th, ph := math.Pi / 2 * u, 2*math.Pi*v
-				return c.add(dir.mul(r * math.Cos(th))).add(f1.mul(r * math.Sin(th) * math.Cos(ph))).add(f2.mul(r * math.Sin(th) * math.Sin(ph)))
-			}
-		}
-		return []func(u, v float64) V3{side, cap(s.A, e.mul(-1)), cap(s.B, e)}
 	case "plane":
 		n := s.B
 		nn := n.dot(n)
-		base := p.sub(n.mul((p.sub(s.A).dot(n) + s.R[0]) / nn)) // a point of the true plane { (x-pos).n + h = 0 }
+		if nn == 0 {
+			return nil
+		}
+		// base: a point of the true plane { (x - pos).n + h = 0 } (the projection of p); points of the plane further
+		// than w from base are further than w - |p - base| > |p - base| >= dist from p, so the square suffices
+		base := p.sub(n.mul((p.sub(s.A).dot(n) + s.R[0]) / nn))
+		w := 4*p.sub(base).norm() + 4
 		f1, f2 := frame(n.mul(1 / math.Sqrt(nn)))
-		return []func(u, v float64) V3{func(u, v float64) V3 {
-			return base.add(f1.mul((u - 0.5) * 8)).add(f2.mul((v - 0.5) * 8))
-		}}
+		return []*patch{planePatch(base, f1, f2, w, w)}
 	}
 	return nil
 }
 
-// addExact: |f p| must be the Euclidean distance from p to the surface (sphere, box, capsule, plane)
+// addExact: |f p| must lie in the enclosure of the Euclidean distance from p to the surface (sphere, box, capsule, plane)
 func (h *H) addExact(d evalDesc) {
 	out, perr := callField(d.Shape, d.P)
 	c := hx.Case{Kind: "exact", Desc: d, Key: key(d), Nontriv: true, Coq: "CGo", FailKey: degenerate(d.Shape)}
@@ -97,13 +190,27 @@ func (h *H) addExact(d evalDesc) {
 		h.run.Add(c)
 		return
 	}
-	best := math.Inf(1)
-	for _, patch := range surfacePatches(d.Shape, d.P) {
-		best = math.Min(best, patchDist(patch, d.P))
+	lo, hi := math.Inf(1), math.Inf(1)
+	for _, pt := range surfacePatches(d.Shape, d.P) {
+		l, u := pt.enclose(d.P, hi)
+		lo, hi = math.Min(lo, l), math.Min(hi, u)
 	}
-	tol := 2e-6 * scaleOf(d.Shape, d.P)
-	if math.Abs(math.Abs(out)-best) > tol {
-		c.GoFail = fmt.Sprintf("|f p| = %v but the brute-force distance to the surface is %v", math.Abs(out), best)
+	if math.IsInf(hi, 1) {
+		h.run.Add(c)
+		return
+	}
+	if hi-lo > h.maxEnclosure {
+		h.maxEnclosure = hi - lo
+		h.run.Extra["max_exactness_enclosure_width"] = h.maxEnclosure
+	}
+	if hi-lo < 1e-9 {
+		h.run.Count("exact-enclosure:tight(<1e-9)")
+	} else {
+		h.run.Count("exact-enclosure:wide(symmetric position, budget reached)")
+	}
+	slack := 1e-9 * scaleOf(d.Shape, d.P)
+	if a := math.Abs(out); a < lo-slack || a > hi+slack {
+		c.GoFail = fmt.Sprintf("|f p| = %v but the distance from p to the surface lies in [%v, %v] (rigorous branch-and-bound enclosure)", a, lo, hi)
 	}
 	h.run.Add(c)
 }
